@@ -104,7 +104,25 @@ static void ev_write(const unsigned char *b, size_t n)
 
 /* ---- the world ------------------------------------------------------------------------------ */
 
-void err(char *fmt, ...) { (void) fmt; }
+/* the diagnostic that relays the server's refusal -- err("%S: %s", ahost, tmpbuf) -- is an observable of the `xe` op:
+ * a format that takes the host (%S) and then ONE string (%s) and no other conversion */
+#include <stdarg.h>
+static char last_err[1 << 16];
+static int last_err_set;
+void err(char *fmt, ...)
+{
+    const char *s1 = strstr(fmt, "%S"), *s2 = s1 ? strstr(s1, "%s") : NULL;
+    if (s2 && !strstr(s2 + 2, "%") && !strstr(fmt, "%p") && !strstr(fmt, "%m")) {
+        va_list ap;
+        const char *t;
+        va_start(ap, fmt);
+        (void) va_arg(ap, char *);
+        t = va_arg(ap, char *);
+        snprintf(last_err, sizeof last_err, "%s", t ? t : "");
+        last_err_set = 1;
+        va_end(ap);
+    }
+}
 void errx(char *fmt, ...) { (void) fmt; exit(3); }
 
 int privsep_rresvport(int *lport)
@@ -256,13 +274,24 @@ int main(void)
     static unsigned char lu[1 << 12], ru[1 << 12], cmd[1 << 17];
     while (fgets(line, sizeof line, stdin)) {
         char *w[16];
-        int nw = 0, errch, n, rc, efd = -1;
+        int nw = 0, errch, n, rc, efd = -1, xe = 0;
         char *tok = strtok(line, " \n");
         char addr[4] = { 127, 0, 0, 1 };
         void *arg = NULL;
         while (tok && nw < 16) {
             w[nw++] = tok;
             tok = strtok(NULL, " \n");
+        }
+        if (nw == 2 && strcmp(w[0], "xe") == 0) {
+            /* xe REPLYHEX: a plain connection (no stderr channel), the peer answers REPLY; the answer line is the text
+             * xrcmd hands to err() for the refusal: `err HEX`, `err ~` when there is none */
+            static char *d[11] = { "xr", "0", "726f6f74", "626f62", "6964", "-", "o", "1", "1", "1000", NULL };
+            char *r = w[1];
+            memcpy(w, d, sizeof d);
+            w[10] = r;
+            nw = 11;
+            xe = 1;
+            last_err_set = 0;
         }
         if (nw != 11 || strcmp(w[0], "xr") != 0) {
             printf("bad-op\n");
@@ -307,6 +336,18 @@ int main(void)
                 ev("leak%d", fdport[n]);   /* a socket xrcmd did not close on its way out */
         if (rc < 0 && acc_fd >= 0)
             ev("leakX");
+        if (xe) {
+            if (last_err_set) {
+                const unsigned char *q = (const unsigned char *) last_err;
+                printf("err ");
+                if (!*q)
+                    printf("-");
+                for (; *q; q++)
+                    printf("%02x", *q);
+                printf("\n");
+            } else
+                printf("err ~\n");
+        } else
         printf("%s%s\n", rc >= 0 ? "ok" : "fail", evbuf ? evbuf : "");
         fflush(stdout);
         if (rc >= 0)
